@@ -195,7 +195,20 @@ def make_array(ctx, rng, support, ndim=None):
     a = np.empty(n, dtype=object)
     for i, o in enumerate(tag_members(rng, [fam.member() for _ in range(n)], 0.4)):
         a[i] = o
-    return a.reshape(shape)
+    a = a.reshape(shape)
+    # memory layout must not matter: also hand over views that are not C-contiguous
+    # (Fortran order, transposed / axis-swapped views, negative strides); the logical content is what counts
+    u = rng.random()
+    if a.ndim >= 2 and u < 0.15:
+        a = np.asfortranarray(a)
+        ctx.count('arrays_not_c_contiguous')
+    elif a.ndim >= 2 and u < 0.30:
+        a = a.reshape(shape[::-1]).T if u < 0.22 else np.swapaxes(a.reshape(shape[:-2] + (shape[-1], shape[-2])), -1, -2)
+        ctx.count('arrays_not_c_contiguous')
+    elif u < 0.38:
+        a = a[::-1]
+        ctx.count('arrays_negative_stride')
+    return a
 
 
 def make_corr(ctx, rng, support, N):
